@@ -41,6 +41,14 @@ def _addr_q(draw, lay, table, maxq, fixed_q=None):
                            st.integers(1, max(1, min(n, maxq))), st.integers(0, maxq + 2)))
     qq = min(q, 70000)
     cands = [a0 - 1, a0, a0 + n - qq, a0 + n - qq + 1, a0 + n - 1, a0 + n, 0, 65535, 65536 - qq, 65535 - qq]
+    if len(rs) >= 2 and fixed_q is None and draw(st.integers(0, 3)) == 0:
+        # a range that starts and ends on populated cells but spans a gap between two runs
+        i = draw(st.integers(0, len(rs) - 2))
+        j = draw(st.integers(i + 1, len(rs) - 1))
+        first = rs[i][0] + draw(st.integers(0, rs[i][1] - 1))
+        last = rs[j][0] + draw(st.integers(0, rs[j][1] - 1))
+        if 1 <= last - first + 1 <= max(maxq, 1):
+            return max(0, first), last - first + 1
     a = draw(st.one_of(st.sampled_from(cands), st.integers(a0 - 2, a0 + n + 2)))
     a = max(0, min(65535, a))
     return a, q
@@ -156,6 +164,15 @@ def sweeps(tier):
                     'read_address': 10, 'read_quantity': 3, 'write_address': 12, 'registers': [], '_quantity': q,
                     '_byte_count': bc, '_data': ('a5' * (bc + bc % 2))}).hex()})
     out.append(('multiple-write-quantity-x-bytecount-x-datalen', cases, True))
+    # FC23: both ranges swept independently across the end of the block (block = cells 10..73)
+    cases = []
+    for rq in (1, 2, 3, 5, 8):
+        for wq in (1, 2, 3, 5):
+            for ra in (9, 10, 74 - rq - 1, 74 - rq, 74 - rq + 1, 74 - rq + 2, 73, 74):
+                for wa in (9, 10, 74 - wq - 1, 74 - wq, 74 - wq + 1, 73, 74):
+                    cases.append({'t': 'pdu', 'layout': lay, 'history': [], 'pdu': specpdu.encode('req:23', {
+                        'read_address': ra, 'read_quantity': rq, 'write_address': wa, 'registers': [0x1111 * (i + 1) for i in range(wq)]}).hex()})
+    out.append(('fc23-read-range-x-write-range-around-block-end', cases, True))
     cases = [{'t': 'pdu', 'layout': lay, 'history': [], 'pdu': (bytes([fc]) + b'\x00\x0a\x00\x01').hex()} for fc in UNASSIGNED]
     out.append(('every-unassigned-function-code', cases, True))
     return out
